@@ -793,7 +793,15 @@ def gen_opt_program(rng, refs=False, exprs=False):
                 for j, it in enumerate(items):
                     if it.mod and it.cls is not None and (it.out is None or it.out[0] == "cls") and top_items and rng.random() < 0.7:
                         ctx = {"refs": [q for q in top_items if q != j + 1], "own": True, "nuser": 4, "ngattr": 0}
-                        t, ir_ = gen_int_expr(rng, ctx, rng.choice([1, 2, 3]))
+                        if ctx["refs"] and rng.random() < 0.4:
+                            # a conditional whose two branches read two (possibly different) other items
+                            tc, ic = gen_bool_expr(rng, ctx, 0)
+                            qa, qb = rng.choice(ctx["refs"]), rng.choice(ctx["refs"])
+                            ua, ub = rng.randrange(4), rng.randrange(4)
+                            t = "(%s ? @%d.user%d : @%d.user%d)" % (tc, qa, ua + 1, qb, ub + 1)
+                            ir_ = {"k": "cond", "c": ic, "a": {"k": "user", "slot": qa, "i": ua}, "b": {"k": "user", "slot": qb, "i": ub}}
+                        else:
+                            t, ir_ = gen_int_expr(rng, ctx, rng.choice([1, 2, 3]))
                         it.attrs.append(("user%d" % rng.randint(1, 4), "=", t, ir_))
                     if it.cls is not None and j + 1 in top_items and rng.random() < 0.25:
                         ctx = {"refs": [q for q in top_items if q != j + 1], "own": True, "nuser": 4, "ngattr": 0}
@@ -1288,11 +1296,18 @@ def gen_attach_program(rng):
                     nm = rng.choice(["shift.x", "shift.y", "advance.x"])
                     v = rng.choice([0, 0, 15, 40, -25, 100]) if nm == "advance.x" else rng.choice([10, 30, -20, -45])
                     it.attrs.append((nm, "=", (str(v) if v >= 0 else "(%d)" % v), {"k": "lit", "v": v}))
-            if rng.random() < 0.25:
-                b = [it for it in items if it.cls in ("cBase",) and not it.mod]
-                if b and items.index(b[0]) >= (1 if len(items) > 2 and items[0].cls in ("cOther",) else 0):
-                    pass
-            rules.append(Rule(items))
+            r_ = Rule(items)
+            if rng.random() < 0.3:
+                # an explicit ^ somewhere after the first modified item (the scan resumes there; with a forward attachment
+                # the compiler emits an extra item and has to correct the returned position)
+                first_mod = min(j for j, it in enumerate(items) if it.mod)
+                r_.caret = rng.randint(first_mod + 1, len(items))
+            rules.append(r_)
+        # every base the scan reaches gets a mark of its own (shows whether the scan resumed where ^ says)
+        if rng.random() < 0.7:
+            it = Item("cBase", mod=True)
+            it.attrs.append(("user%d" % rng.randint(1, 4), "=", str(7 + _p), {"k": "lit", "v": 7 + _p}))
+            rules.append(Rule([it]))
         # a rule that moves bases (independent of attachment)
         if rng.random() < 0.4:
             it = Item("cBase", mod=True)
